@@ -468,10 +468,19 @@ class Qobj:
                 copy=False
             )
 
+        # A product is known to be unitary when both factors are, and known
+        # not to be when exactly one is; nothing follows from two non-unitary
+        # factors or from an unknown one.
+        isunitary = None
+        if (
+            self._isunitary is not None and other._isunitary is not None
+            and (self._isunitary or other._isunitary)
+        ):
+            isunitary = self._isunitary and other._isunitary
         return Qobj(
             _data.matmul(self._data, other._data),
             dims=new_dims,
-            isunitary=self._isunitary and other._isunitary,
+            isunitary=isunitary,
             copy=False
         )
 
